@@ -227,7 +227,7 @@ func (w *fsWallet) notifyNewFiles(ctx context.Context, files ...fs.FileInfo) {
 	log.L(ctx).Debugf("Processed %d files. Found %d new addresses", len(files), len(newAddresses))
 	// Avoid holding the lock while calling the listeners, by using a go-routine
 	go func() {
-		for _, l := range w.listeners {
+		for _, l := range listeners {
 			for _, addr := range newAddresses {
 				l <- *addr
 			}
